@@ -5,11 +5,26 @@
    Arb.Cases.c05_run on the implementation's own change and problem lists):
      for every history, after each event, for every object the controller knows (exists, own
      class): it is active  <->  the most recent report derived from the batches is a success.
-   Proved below: the soundness of the delta suppression the reports go through. *)
+   Proved below: the change half of it for Ingresses, VirtualServers and TransportServers -- for every history
+   a resource is active iff the most recent change handed to the controller about it is an addOrUpdate (the
+   change that carries the success report), so an active resource has had a fresh success after its last
+   removal and a resource whose last change is a removal is not active -- and the soundness of the delta
+   suppression the problem reports go through. *)
 From Coq Require Import List ZArith String Bool.
-From NIC Require Import Base.SMap Arb.Types Arb.Model Arb.Spec Arb.InvProofs Arb.ClassProofs Arb.Cases Arb.ChangeProofs.
+From NIC Require Import Base.SMap Arb.Types Arb.Model Arb.Spec Arb.InvProofs Arb.ClassProofs Arb.Cases Arb.ChangeProofs Arb.ShadowProofs.
 Import ListNotations.
 Open Scope Z_scope.
+
+(* For EVERY history: a resource (Ingress, VirtualServer, TransportServer) is active -- it is in
+   GetResources() -- if and only if the most recent change about it, over the whole history, is an
+   addOrUpdate.  processChanges reports a success exactly with an addOrUpdate change, so a resource that
+   becomes active again always receives a fresh success, and a resource whose last change is a removal is
+   never active.  ([all_changes] concatenates the batches of every event; hypothesis as in C03.) *)
+Theorem C05_active_iff_last_change_is_update_partial :
+  forall c es, Forall ev_role es ->
+  forall k, In k (keys (get_resources (run c es))) <-> last_op k (all_changes c init es) None = Some AddOrUpdate.
+Proof. exact active_iff_last_change_is_update. Qed.
+Print Assumptions C05_active_iff_last_change_is_update_partial.
 
 (* Problems are emitted as deltas against the previous problem set.  For EVERY history: every problem
    that is standing in hostProblems at the end has been sent, and it is the most recent problem sent
